@@ -192,10 +192,149 @@ def run_poller(ctx):
     return good
 
 
+# ------------------------------------------------------------------ extension X8: from the raw log to the message handed to the signer
+LHDR = ("From Coq Require Import List ZArith Bool Strings.Byte Uint63.\n"
+        "From WH Require Import lib.Bytes lib.Wire lib.EvmAbi gen.Extracted gen.ExtractedEvmLog model.EvmWatcher model.EvmLog model.EvmLogCase.\n"
+        "Import ListNotations.\nOpen Scope Z_scope.\n")
+ERR_CLASS = {"sig": 1, "insufficient": 2, "offset": 3, "offset64": 4, "len64": 5, "pad": 6, "topics": 7, "other": 99}
+EVM_CONTRACT = "0290fb167208af455bb137780163b7b7a9a10c16"
+
+
+def gB(hexs):
+    return "(B %s)" % core.gbytes(hexs)
+
+
+def graw(l):
+    return "(mkRaw %s %s %s %s %d %s)" % (gB(l["addr"]), core.glist(gB(t) for t in l["topics"]), gB(l["data"]), gB(l["bh"]), l["num"], gB(l["tx"]))
+
+
+def ghmsg(m):
+    return "(mkH %s %s %d %d %d %d %s %d %d %d)" % (gB(m["tx"]), gz(m["ts"]), m["nonce"], m["seq"], m["chain"], m["target"], gB(m["em"]),
+                                                    len(m["payload"]) // 2, core.hash_bytes(m["payload"]), m["cl"])
+
+
+def grcpt(rc):
+    if rc is None:
+        return "None"
+    logs = core.glist("None" if l is None else "(Some %s)" % graw(l) for l in rc["logs"])
+    return "(Some (mkXRcpt %d %s %s))" % (rc["status"], gzopt(rc["blk"]), logs)
+
+
+def glcase(r):
+    if r["k"] == "parse":
+        res = r["res"]
+        if res["out"] == "ok":
+            e = res["ev"]
+            p = "(POk %s %d %d %d %d %d %d)" % (gB(e["sender"]), e["target"], e["seq"], e["nonce"], len(e["payload"]) // 2, core.hash_bytes(e["payload"]), e["cl"])
+        elif res["out"] == "err":
+            p = "(PErr %d)" % ERR_CLASS.get(res["err"], 99)
+        else:
+            p = "PPanic"
+        return "(LParse %s %s)" % (graw(r["log"]), p)
+    if r["k"] == "bytx":
+        res = r["res"]
+        if res["out"] == "ok":
+            b = "(BOk %d %s)" % (res["blk"], core.glist(ghmsg(m) for m in res["msgs"]))
+        elif res["out"] == "err":
+            b = "BErr"
+        else:
+            b = "BPanic"
+        rc = "None" if r["rcerr"] else grcpt(r["rc"])
+        bt = "None" if r["bterr"] else "(Some %d)" % r["bt"]
+        return "(LByTx (mkXCfg false %s %d) %s %s %s)" % (gB(EVM_CONTRACT), r["chain"], rc, bt, b)
+    groups = []
+    for g in r["groups"]:
+        ops = []
+        for o in g["ops"]:
+            if o["t"] == "log":
+                ops.append("(XCLog %s %d)" % (graw(o["log"]), o["bt"]))
+            elif o["t"] == "head":
+                lks = core.glist("(%s, %s)" % (gB(lk["tx"]), "LNotFound" if lk["c"] == 0 else "LErr" if lk["c"] == 1 else "(LRc %d %s)" % (lk["st"], gB(lk["bh"])))
+                                 for lk in o["lk"])
+                ops.append("(XCHead %d %s)" % (o["n"], lks))
+            else:
+                ops.append("(XCReobs %d %s (Some %d))" % (o["hb"], grcpt(o["rc"]), o["bt"]))
+        pend = core.glist("(%s, %s, %s, %d, %d)" % (gB(p["tx"]), gB(p["bh"]), gB(p["em"]), p["seq"], p["h"]) for p in g["pend"])
+        groups.append("(%s, %s, %s, %d)" % (core.glist(ops), core.glist(ghmsg(m) for m in g["fw"]), pend, g["died"]))
+    return "(LRun (mkXCfg %s %s %d) %s)" % (core.gbool(r["cfg"]["wait"]), gB(EVM_CONTRACT), r["chain"], core.glist(groups))
+
+
+def lweight(r):
+    if r["k"] == "parse":
+        return 20 + len(r["log"]["data"]) // 14
+    if r["k"] == "bytx":
+        return 40 + sum(len(l["data"]) // 14 for l in ((r["rc"] or {}).get("logs") or []) if l)
+    n = 60
+    for g in r["groups"]:
+        for o in g["ops"]:
+            if o.get("log"):
+                n += 30 + len(o["log"]["data"]) // 14
+            if o.get("rc"):
+                n += sum(30 + len(l["data"]) // 14 for l in o["rc"]["logs"] if l)
+            n += 10 * len(o.get("lk") or [])
+        n += 20 * (len(g["fw"]) + len(g["pend"]))
+    return n
+
+
+def run_log(ctx):
+    """extension X8: raw logs (arbitrary data bytes / topics) through the real ParseLogMessagePublished, MessageEventsForTransaction and Run"""
+    rc, out, trace = core.harness_pkg(ctx, "ethereum", "^TestVerifC10Log$", race=(ctx.tier == "thorough"), timeout=1800)
+    rows = core.read_jsonl(trace)
+    if rc != 0 or not rows:
+        ctx.problem("correspondence", "go harness C10 raw logs", out[-2500:])
+        return []
+    fam = {}
+    kinds = {}
+    outcomes = {}
+    seen = {}
+    nfw = 0
+    for r in rows:
+        fam[r["k"]] = fam.get(r["k"], 0) + 1
+        for m in r.get("mon") or []:
+            key, _, text = m.partition("|")
+            if key in seen:
+                seen[key][0] += 1
+            else:
+                seen[key] = [1, r, text]
+        if r["k"] == "parse":
+            kinds[r["log"]["kind"]] = kinds.get(r["log"]["kind"], 0) + 1
+            o = r["res"]["out"] + (":" + r["res"]["err"] if r["res"].get("err") else "")
+            outcomes["parse " + o] = outcomes.get("parse " + o, 0) + 1
+            if r["res"]["out"] == "err" and r["res"]["err"] == "other":
+                ctx.problem("correspondence", "harness: an UnpackLog error text the harness does not know", r["res"].get("errtext"), concrete=False, replay=r)
+        elif r["k"] == "bytx":
+            outcomes["bytx " + r["res"]["out"]] = outcomes.get("bytx " + r["res"]["out"], 0) + 1
+            nfw += len(r["res"]["msgs"])
+        else:
+            for h in (r.get("harness") or [])[:1]:
+                ctx.problem("correspondence", "harness: " + h, "raw-log history %s" % r["cfg"]["name"], concrete=False,
+                            replay={"cfg": r["cfg"], "script": r["script"], "harness": r["harness"]})
+            for g in r["groups"]:
+                nfw += len(g["fw"])
+                outcomes["run died"] = outcomes.get("run died", 0) + g["died"]
+                for o in g["ops"]:
+                    if o.get("log"):
+                        kinds["run:" + o["log"]["kind"]] = kinds.get("run:" + o["log"]["kind"], 0) + 1
+    for key, (n, r, text) in sorted(seen.items())[:8]:
+        if r["k"] == "run":
+            rp = {"family": "run", "cfg": r["cfg"], "script": r["script"], "observed": r["groups"], "monitor": r["mon"]}
+        else:
+            rp = {"family": r["k"], "case": {k: v for k, v in r.items() if k != "mon"}, "monitor": r["mon"]}
+        ctx.problem("monitor", text[:900], "observed on the real %s (%d occurrences in this run)" % (
+            {"parse": "ParseLogMessagePublished", "bytx": "MessageEventsForTransaction", "run": "Watcher.Run"}[r["k"]], n), concrete=True, replay=rp, key=key)
+    ctx.cov["rawlog_cases"] = fam
+    ctx.cov["rawlog_kinds"] = dict(sorted(kinds.items()))
+    ctx.cov["rawlog_outcomes"] = dict(sorted(outcomes.items()))
+    ctx.cov["rawlog_messages_compared_in_full"] = nfw
+    ctx.cov["rawlog_monitor_classes"] = {k: v[0] for k, v in seen.items()}
+    ctx.evaluations += len(rows)
+    return [r for r in rows if not (r["k"] == "run" and r.get("harness"))]
+
+
 def run(ctx):
-    st = core.run_extract(ctx, ["evm_watcher", "evm_by_tx", "evm_poller", "evm_guardian_set"])
+    st = core.run_extract(ctx, ["evm_watcher", "evm_by_tx", "evm_poller", "evm_guardian_set", "evm_log_abi", "evm_log_unpack", "evm_log_literals", "evm_log_sol"])
     if os.environ.get("VERIF_C10_SKIP_COQ") != "1":
-        core.coq_prove(ctx, "C10", extra_targets=["model/EvmWatcherCase.vo", "model/EvmGuardianSetCase.vo"])
+        core.coq_prove(ctx, "C10", extra_targets=["model/EvmWatcherCase.vo", "model/EvmGuardianSetCase.vo", "model/EvmLogCase.vo"])
         if ctx.tier == "thorough":
             core.coq_thorough_audit(ctx, "C10")
     env = {}
@@ -283,13 +422,31 @@ def run(ctx):
     ctx.cov["monitor_classes"] = {k: v[0] for k, v in seen.items()}
     prows = []
     grows = []
+    lrows = []
     if not ctx.replay:
         prows = run_poller(ctx)
         grows = run_gs(ctx)
+        lrows = run_log(ctx)
     if os.environ.get("VERIF_C10_SKIP_COQ") == "1":
         return
     # other checks may have regenerated gen/Extracted.vo while the harness ran: bring the glue up to date (no-op otherwise)
-    core.coq_make(["model/EvmWatcherCase.vo", "model/EvmGuardianSetCase.vo"])
+    core.coq_make(["model/EvmWatcherCase.vo", "model/EvmGuardianSetCase.vo", "model/EvmLogCase.vo"])
+    if lrows:
+        lbad = core.run_cases(ctx, "cases_C10log", lrows, LHDR, "lcase", glcase, "Definition ok (c : lcase) : bool := check_lcase c.", weight=lweight)
+        if lbad is not None:
+            what = {"parse": "model decode_log differs from ParseLogMessagePublished (fields / error class / panic)",
+                    "bytx": "model xevents_for_tx differs from MessageEventsForTransaction (block, full messages / error / panic)",
+                    "run": "model raw-log history differs from Watcher.Run (full forwarded messages / pending keys and heights / receipt lookups / returns of Run)"}
+            shown = {}
+            for i in lbad:
+                r = lrows[i]
+                if shown.get(r["k"], 0) >= 2:
+                    continue
+                shown[r["k"]] = shown.get(r["k"], 0) + 1
+                rp = {"family": r["k"], "cfg": r["cfg"], "script": r["script"], "observed": r["groups"]} if r["k"] == "run" else {"family": r["k"], "case": r}
+                ctx.problem("correspondence", what[r["k"]], "case %s of family %s" % (r.get("id"), r["k"]), concrete=False, replay=rp)
+            ctx.cov["rawlog_mismatches"] = len(lbad)
+            ctx.cov["rawlog_cases_validated_in_coq"] = len(lrows)
     if grows:
         gok = "Definition ok (c : bool * list fcase) : bool := let '(has, l) := c in check_fetches has None l."
         gbad = core.run_cases(ctx, "cases_C10gs", grows, GHDR, "bool * list fcase", gfcase, gok, nshards=4)
